@@ -27,10 +27,11 @@
    pure list operations on [rtree].
 
    The record [variant] says which of the proposed fixes (proposed_fixes/C11-*.patch) are
-   applied; [shipped] is the code as it is in /repo (HEAD c2fa7c8, which already has
-   new_root_mut in set_architectures/add_profile, add_profile appending after the last
-   PROFILES node, and the builder writing an architecture list only when one was given),
-   [fixed] the code with all the patches.
+   applied; [shipped] is the code as it was in /repo at c2fa7c8, before this cone's patches (it
+   already had new_root_mut in set_architectures/add_profile, add_profile appending after the
+   last PROFILES node, and the builder writing an architecture list only when one was given),
+   [fixed] the code with all the patches = the code as it is in /repo now (the eight patches
+   C11-01..08 are commits 40d0dc3 .. 12709db, C11-10 in-place splices is 5517d72).
 
    Panic sites:  30 detach in an immutable tree ("immutable tree")   31 attach into/of an immutable tree
      32 attach beyond the end (Vec::splice range)   33 splice_children on an immutable tree
@@ -44,6 +45,7 @@
    Err 1-5 are the FromStr errors of RelParse.v.
    No proofs in this file. *)
 From V.model Require Import Base RelLex RelParse.
+From V.model Require RelAcc.
 
 (* ------------------------------------------------------------------ fixes *)
 Record variant := mk_variant {
@@ -1053,3 +1055,31 @@ Fixpoint mapM {A B} (f : A -> res B) (l : list A) : res (list B) :=
 (* the list-of-lists view of a field: entries of alternatives *)
 Definition structure (t : rtree) : res (list (list relrec)) :=
   mapM (fun e => mapM relrec_of (relations e)) (entries t).
+
+(* Relation::version() hands the version text to debversion: `version.parse::<Version>().unwrap()`.
+   What the caller holds is a Version, i.e. (for all this API and its callers can observe) its
+   Display text: RelAcc.debversion_roundtrip — the text again, the epoch re-printed in canonical
+   decimal; Panic 12 when the text is not a version ("1_2", an epoch above u32::MAX).  [structure]
+   above reads the version text AS WRITTEN (no parse: it never panics on it); [structure_d] is what
+   the accessors return, with that parse.  A version OPERAND (set_version, Relation::new, the
+   builder) is a Version too: the text an operation is given is the Display of one
+   ([version_operand] = the text a caller's `text.parse::<Version>()` gives, Err when it is none). *)
+Definition version_operand (s : str) : res str := RelAcc.debversion_roundtrip s.
+Definition rel_version_d (r : rtree) : res verspec :=
+  match rel_version r with
+  | Ok (Some (vc, ver)) =>
+      match RelAcc.debversion_roundtrip ver with
+      | Ok v' => Ok (Some (vc, v'))
+      | _ => Panic 12
+      end
+  | x => x
+  end.
+Definition relrec_of_d (r : rtree) : res relrec :=
+  match rel_name r, rel_version_d r with
+  | Ok n, Ok v => Ok (mk_relrec n (rel_archqual r) v (rel_architectures r) (rel_profiles r))
+  | Panic n, _ => Panic n
+  | _, Panic n => Panic n
+  | _, _ => Err 96
+  end.
+Definition structure_d (t : rtree) : res (list (list relrec)) :=
+  mapM (fun e => mapM relrec_of_d (relations e)) (entries t).
